@@ -25,6 +25,7 @@ import tempfile
 from sexp import Atom
 
 import extract_classwiring
+import c15_census
 
 MODEL = "classes"
 SHRINKABLE = True
@@ -37,18 +38,31 @@ RULE = ("fonts built with marker subclasses for a random subset of the 17 roles 
         "swept after every operation or only after every 2nd/3rd/last one (operations then run on partly loaded fonts), "
         "info/kerning/groups/features are read eagerly or only when an operation touches them; non-trivial = "
         "at least one role customised AND at least one operation created an object of a customised role; distinct = "
-        "distinct (configuration, content, op list)")
+        "distinct (configuration, content, op list).  Round 3: the source font of insertGlyph/copyData/deserialize carries "
+        "OTHER marker classes; reloadImages/reloadData, LayerSet/Layer/sub-object setDataFromSerialization; free-standing glyphs "
+        "and contours (made by the factories, or constructed by the caller as an object of defcon's own / of the registered "
+        "class with the registered classes handed in) driven through pens, dict appends, point-level API, reversal; pens used "
+        "after their glyph left its layer; every entry point that accepts an object handed an object of defcon's class, of the "
+        "registered class and of an unrelated subclass (model: adopted as it is / rebuilt with which class); RUN-TIME SITE "
+        "CENSUS: every construction of an instance of a role class is recorded with the defcon source position that asked "
+        "for it, every such position must be a creation site of the regenerated table, every reachable object must have been "
+        "recorded, and the directed histories must hit every site of the table with the role the catalogue gives it")
 ASSUMPTIONS = [
     "registered classes are subclasses of defcon's default class for the role that do not override __init__ or the "
     "instantiate* factories (marker subclasses)",
-    "objects the user constructs himself and hands in (appendContour/appendComponent/appendPoint with a foreign object) are "
-    "not creation paths: points are inserted through contour.pointClass, which is what the class properties are for",
+    "contours, components and points the user constructs himself and hands in (appendContour/appendComponent/appendPoint) "
+    "are stored as they are - the model says so (`adopt`), the code is compared with it, the oracle does not demand their "
+    "class: points are inserted through contour.pointClass, which is what the class properties are for; anchors, guidelines "
+    "and glyphs handed in ARE demanded to come out as objects of the registered class",
+    "an 'unrelated subclass' is a marker subclass of the role's defcon class that is registered nowhere",
     "objects inside a representation (the flattened contour's points) are not demanded (exercised as noise only)",
     "UFO 3 on disk; single process",
 ]
 TRUSTED = [
-    "harness/extract_classwiring.py sees every creation site (it fails closed on unrecognised class-valued shapes; the "
-    "marker-subclass runs cross-check it)",
+    "harness/c15_census.py records every construction (wrappers on __init__ of defcon's 17 role classes; an object made "
+    "without __init__ would show up as an unrecorded reachable object) - with it, that the AST extractor sees every "
+    "creation site is CHECKED on every executed site, not trusted; sites no history executes remain covered by the "
+    "extractor's fail-closed shapes only (the census prints them: none for the directed histories)",
     "Tracker (generator-side bookkeeping of the generated content) decides which roles an operation is expected to create",
 ]
 
@@ -60,6 +74,26 @@ KW = dict(glyph="glyphClass", contour="glyphContourClass", point="glyphPointClas
           unicodeData="unicodeDataClass", imageSet="imageSetClass", dataSet="dataSetClass")
 LAZY_PARTS = ["info", "kerning", "groups", "features"]
 DEFAULT_LAYER = "public.default"
+SRC_ID_OFFSET = 20      # marker classes of the SOURCE font: other classes than the receiving font's
+UNRELATED_ID = 99       # a subclass of the role's defcon class that is registered nowhere
+
+# entry points that accept an object -> (role, owner kind); the harness' own list (the model has its own, Spec/Classes.lean)
+ENTRIES = {
+    "Contour.appendPoint": "point", "Contour.insertPoint": "point",
+    "Font.insertGlyph": "glyph", "Layer.insertGlyph": "glyph",
+    "Font._set_guidelines": "guideline", "Font.appendGuideline": "guideline", "Font.insertGuideline": "guideline",
+    "Info.appendGuideline": "guideline", "Info.insertGuideline": "guideline",
+    "Glyph.appendContour": "contour", "Glyph.insertContour": "contour",
+    "Glyph.appendComponent": "component", "Glyph.insertComponent": "component",
+    "Glyph._set_anchors": "anchor", "Glyph.appendAnchor": "anchor", "Glyph.insertAnchor": "anchor",
+    "Glyph._set_guidelines": "guideline", "Glyph.appendGuideline": "guideline", "Glyph.insertGuideline": "guideline",
+}
+# the roles for which the property demands conversion of whatever is handed in (dict-based appending, insertion from
+# another font); contours, components and points a caller constructs himself are documented to be taken as they are
+CONVERTED_ROLES = ("anchor", "guideline", "glyph")
+FOREIGN_KINDS = ("base", "registered", "unrelated")
+# sites of the table the directed histories are not expected to execute (none)
+CENSUS_NEVER = []
 
 FACTORIES = {
     # which -> (role, owner kind)
@@ -242,6 +276,8 @@ class Tracker(object):
         self.fg_mem = 0
         self.started = False
         self.closed_fs = set()   # layers added by reloadLayers: their glyph set sits on a closed filesystem
+        self.extra = []          # further (path, roles) queries of the operation just applied
+        self.foreign_src = bool(case.get("src_custom"))
 
     # -- helpers ----------------------------------------------------------------------
     def glyph(self, layer, name):
@@ -304,9 +340,13 @@ class Tracker(object):
     def comps_ok(self, comps, name):
         return all(b < name for b in comps)
 
+    def copy_path(self):
+        return "copyForeign" if self.foreign_src else "insertGlyph"
+
     # -- operations -------------------------------------------------------------------
     def apply(self, op):
         """-> (valid, path name, expected new roles)"""
+        self.extra = []
         try:
             r = self._apply(op)
         except (KeyError, IndexError, TypeError, ValueError):
@@ -327,7 +367,7 @@ class Tracker(object):
         so that `expected new roles` stays a statement about objects that are still reachable)"""
         k = op[0]
         if k in ("copyData", "deserializeGlyph", "deserializeContour", "deserialize", "reloadGlyphs", "removeSegment",
-                 "decompose"):
+                 "decompose", "deserializeLayer", "stalePen"):
             return True
         if k in ("appendAnchor", "appendGuideline") and op[3] in ("list", "empty"):
             return True
@@ -385,7 +425,7 @@ class Tracker(object):
                 if layer not in self.layers:
                     return None
                 self.layers[layer][dst] = tglyph(G)
-                return "insertGlyph", GLYPH_SHELL | glyph_roles(G)
+                return self.copy_path(), GLYPH_SHELL | glyph_roles(G)
             T = self.layers[layer][dst]
             if k == "copyData":
                 # copyDataFromGlyph replaces anchors/guidelines, ADDS outlines
@@ -396,7 +436,7 @@ class Tracker(object):
                 if not self.comps_ok(T["components"] + new["components"], dst):
                     return None
                 T["components"].extend(new["components"])
-                return "insertGlyph", glyph_roles(G)
+                return self.copy_path(), glyph_roles(G)
             self.layers[layer][dst] = tglyph(G)
             return "deserialize", glyph_roles(G)
         if k in ("appendAnchor", "appendGuideline"):
@@ -558,7 +598,8 @@ class Tracker(object):
             if not self.has_path:
                 return None
             expect = set()
-            if part == "lib":
+            if part in ("lib", "images", "data"):
+                # the image set and the data set are made with the font; reloading re-reads their files
                 return "reload", expect
             if part in self.touched:
                 if part == "info":
@@ -607,6 +648,72 @@ class Tracker(object):
             return "deserialize", ({"point"} if C["segs"] else set())
         if k == "props":
             return "props", set()
+        if k in ("foreign", "census"):
+            return k, set()
+        if k == "deserializeLayers":
+            # LayerSet.setDataFromSerialization: a NEW layer filled from the source font's default layer
+            _, name = op
+            if name in self.layers:
+                return None
+            glyphs = case["src"]["layers"][0]["glyphs"]
+            self.layers[name] = dict((n, tglyph(G)) for n, G in glyphs.items())
+            expect = set(LAYER_SHELL)
+            for G in glyphs.values():
+                expect |= GLYPH_SHELL | glyph_roles(G)
+            return "deserializeParts", expect
+        if k == "deserializeLayer":
+            # Layer.setDataFromSerialization on an existing layer: the source's glyphs replace / join its glyphs
+            _, layer = op
+            if layer not in self.layers:
+                return None
+            glyphs = case["src"]["layers"][0]["glyphs"]
+            expect = set()
+            for n, G in glyphs.items():
+                self.layers[layer][n] = tglyph(G)
+                expect |= GLYPH_SHELL | glyph_roles(G)
+            return "deserializeParts", expect
+        if k == "deserializeSub":
+            # anchor / guideline / component / image / lib .setDataFromSerialization with their own data: nothing new
+            _, layer, g = op
+            self.layers[layer][g]
+            return "deserializeParts", set()
+        if k == "free":
+            # a glyph / contour that is in no layer / glyph, driven through the creating API
+            _, what, how, spec = op
+            if how not in ("factory", "own", "registered"):
+                return None
+            if what == "glyph":
+                if spec["components"] and not self.comps_ok(spec["components"], "Z"):
+                    return None
+                expect = {"lib", "image"} | glyph_roles(spec)
+                if how == "factory":
+                    expect.add("glyph")
+                    return "freeStanding", expect
+                return "free:Glyph:" + how, expect
+            if what == "contour":
+                expect = {"point"}       # the script always appends a point made by contour.pointClass
+                if how == "factory":
+                    expect.add("contour")
+                    return "freeStanding", expect
+                return "free:Contour:" + how, expect
+            return None
+        if k == "stalePen":
+            # a pen obtained from the glyph, the glyph leaves its layer (deleted / replaced by newGlyph), then the pen draws
+            _, layer, g, C, kind, how = op
+            T = self.layers[layer][g]
+            if kind == "segment" and not tcontour(C)["plain"]:
+                return None
+            if how == "deleted":
+                del self.layers[layer][g]
+            elif how == "replaced":
+                self.layers[layer][g] = tglyph(dict(contours=[], components=[], anchors=0, guidelines=0))
+                self.extra.append(("create", set(GLYPH_SHELL)))
+            else:
+                return None
+            expect = {"contour", "component"}
+            if tcontour(C)["pts"]:
+                expect.add("point")
+            return "stalePen", expect
         if k == "noise":
             _, kind, layer, g = op
             T = self.layers[layer][g]
@@ -700,8 +807,10 @@ def gen_op(rng, tr, case):
     """a candidate operation (validity is decided by the tracker)"""
     kinds = ["newGlyph", "newLayer", "insertGlyph", "copyData", "appendAnchor", "appendGuideline", "fontGuideline",
              "factory", "penDraw", "penDraw", "reverse", "reverse", "split", "removeSegment", "removeSegment", "appendPoint",
-             "decompose", "decompose", "reloadGlyphs", "reloadLayers", "reloadPart", "touch", "deserialize",
-             "deserializeGlyph", "deserializeContour", "props", "noise"]
+             "decompose", "decompose", "reloadGlyphs", "reloadLayers", "reloadPart", "reloadPart", "touch", "deserialize",
+             "deserializeGlyph", "deserializeContour", "props", "noise",
+             "deserializeLayers", "deserializeLayer", "deserializeSub", "free", "free", "stalePen", "stalePen", "foreign",
+             "foreign"]
     k = rng.choice(kinds)
     src_names = sorted(case["src"]["layers"][0]["glyphs"])
     layers = sorted(tr.layers)
@@ -771,7 +880,29 @@ def gen_op(rng, tr, case):
         names = [n for n in GLYPH_NAMES if rng.random() < 0.4]
         return [k, rng.choice(["ext1", "ext2"]), dict((n, gen_glyph(rng, n, rich=True)) for n in names)]
     if k == "reloadPart":
-        return [k, rng.choice(["info", "kerning", "groups", "features", "lib"])]
+        return [k, rng.choice(["info", "kerning", "groups", "features", "lib", "images", "data"])]
+    if k == "deserializeLayers":
+        return [k, rng.choice(["ds1", "ds2"])]
+    if k == "deserializeLayer":
+        return [k, rng.choice(layers)]
+    if k == "deserializeSub":
+        t = _pick_glyph(rng, tr)
+        if t is None:
+            return None
+        return [k, t[0], t[1]]
+    if k == "free":
+        how = rng.choice(["factory", "own", "registered"])
+        if rng.random() < 0.5:
+            return [k, "glyph", how, gen_glyph(rng, "E", rich=True)]
+        return [k, "contour", how, gen_contour(rng)]
+    if k == "stalePen":
+        t = _pick_glyph(rng, tr)
+        if t is None:
+            return None
+        kind = rng.choice(["point", "point", "segment"])
+        return [k, t[0], t[1], gen_contour(rng, odd=(kind == "point")), kind, rng.choice(["deleted", "replaced"])]
+    if k == "foreign":
+        return [k, rng.choice(sorted(ENTRIES)), rng.choice(FOREIGN_KINDS)]
     if k == "touch":
         return [k, rng.choice(LAZY_PARTS)]
     if k == "deserialize":
@@ -789,6 +920,8 @@ def gen_op(rng, tr, case):
 def gen_case(rng, maxops):
     case = dict(custom=gen_custom(rng), lazy=rng.random() < 0.5, sweep=rng.choice([1, 1, 1, 2, 3, 99]),
                 content=gen_content(rng), src=gen_content(rng, min_glyphs=2), ops=[])
+    # the source font of insertGlyph / copyData / deserialize is itself built with (other) registered classes, or plain
+    case["src_custom"] = gen_custom(rng) if rng.random() < 0.6 else {}
     case["src"]["layers"] = case["src"]["layers"][:1]
     tr = Tracker(case)
     first = ["open"] if rng.random() < 0.7 else ["new"]
@@ -810,7 +943,7 @@ def gen_case(rng, maxops):
     return case
 
 
-def kitchen_sink(rng, custom, sweep=1):
+def kitchen_sink(rng, custom, sweep=1, src_custom=None, reload_tail=False):
     """one long directed history that runs every creation path on a rich font"""
     G1 = dict(contours=[dict(closed=True, segs=["line", "curve", "line", "line"]), dict(closed=False, segs=["move", "line", "curve"])],
               components=[], anchors=2, guidelines=1, image=True, lib=True, unicodes=[65])
@@ -846,17 +979,42 @@ def kitchen_sink(rng, custom, sweep=1):
             ["deserialize", "shallow", "data"], ["reverse", D, "A", 0, "reverse"], ["decompose", D, "B", "all"],
             ["deserialize", "self", "pickle"], ["reverse", D, "A", 0, "reverse"], ["split", D, "A", 0, 0],
             ["deserialize", "src", "data"], ["reverse", D, "A", 0, "reverse"], ["appendAnchor", D, "A", "dict"]]
-    return dict(custom=custom, lazy=True, sweep=sweep, content=content, src=src, ops=ops)
+    # round 3: reloads of every part, serialisation below the font, free-standing objects, stale pens, objects handed in
+    GF = dict(contours=[dict(closed=True, segs=["line", "curve", "line", "line", "curve"]), dict(closed=False, segs=["move", "line", "curve"])],
+              components=["A"], anchors=2, guidelines=1, image=True, lib=True, unicodes=[])
+    CF = dict(closed=True, segs=["line", "curve", "line", "line", "curve"])
+    ops += [["deserializeLayers", "ds1"], ["deserializeLayer", D], ["deserializeSub", D, "A"],
+            ["insertGlyph", "B", D, "E"], ["copyData", "A", D, "E"]]
+    for how in ("factory", "own", "registered"):
+        ops += [["free", "glyph", how, GF], ["free", "contour", how, CF]]
+    ops += [["stalePen", D, "A", dict(closed=True, segs=["line", "curve", "line"]), "point", "deleted"],
+            ["stalePen", D, "B", dict(closed=True, segs=["line", "curve", "line"]), "segment", "replaced"],
+            ["stalePen", "ds1", "A", dict(closed=False, segs=["move", "line"]), "point", "replaced"]]
+    ops += [["foreign", e, kind] for e in sorted(ENTRIES) for kind in FOREIGN_KINDS]
+    if reload_tail:
+        # a second font read from the UFO: reloads after external edits of parts that were / were not read before
+        ops2 = [["open"], ["reloadPart", "info"], ["reloadPart", "kerning"], ["touch", "info"], ["reloadPart", "info"],
+                ["reloadPart", "images"], ["reloadPart", "data"], ["reloadPart", "lib"], ["reloadPart", "groups"],
+                ["reloadPart", "features"], ["reloadGlyphs", D, [["A", dict(G1, anchors=1, guidelines=2)], ["C", G3]]],
+                ["reloadLayers", "ext1", dict(A=dict(G1), B=G2)], ["reloadGlyphs", "background", [["A", dict(G1, image=False)]]]]
+        return dict(custom=custom, lazy=True, sweep=sweep, content=content, src=src, src_custom=src_custom or {}, ops=ops2)
+    ops.append(["census", list(CENSUS_NEVER)])
+    return dict(custom=custom, lazy=True, sweep=sweep, content=content, src=src, src_custom=src_custom or {}, ops=ops,
+                census_ops=len(ops))
 
 
 def generate(rng, tier):
     n, maxops = (600, 9) if tier == "quick" else (10000, 14)
     # directed histories first: every path, all roles / one role at a time
-    yield kitchen_sink(rng, dict((r, i + 1) for i, r in enumerate(ROLES)))
+    allc = dict((r, i + 1) for i, r in enumerate(ROLES))
+    srcc = dict((r, 9 - i % 9) for i, r in enumerate(ROLES))
+    yield kitchen_sink(rng, allc, src_custom=srcc)
     yield kitchen_sink(rng, {})
-    yield kitchen_sink(rng, dict((r, i + 1) for i, r in enumerate(ROLES)), sweep=4)
+    yield kitchen_sink(rng, allc, sweep=4)
+    yield kitchen_sink(rng, allc, src_custom=srcc, reload_tail=True)
+    yield kitchen_sink(rng, {}, src_custom=srcc, reload_tail=True)
     for r in (ROLES if tier == "thorough" else rng.sample(ROLES, 5)):
-        yield kitchen_sink(rng, {r: 7})
+        yield kitchen_sink(rng, {r: 7}, src_custom={r: 3})
     for _ in range(n):
         yield gen_case(rng, maxops)
 
@@ -887,6 +1045,9 @@ def neighbourhood(case, step, rng):
                 follow.append(["appendAnchor", ln, gn, "dict"])
                 follow.append(["appendGuideline", ln, gn, "dict"])
     follow += [["deserialize", "self", "data"], ["fontGuideline", "dict"], ["props", "Glyph"], ["props", "Contour"]]
+    follow += [["foreign", e, kind] for e in sorted(ENTRIES) if ENTRIES[e] in CONVERTED_ROLES for kind in FOREIGN_KINDS]
+    follow += [["free", "glyph", "own", gen_glyph(rng, "E", rich=True)], ["free", "contour", "own", gen_contour(rng, odd=False)],
+               ["free", "glyph", "factory", gen_glyph(rng, "E", rich=True)]]
     follow += [["factory", w] for w in sorted(FACTORIES)]
     for f in follow:
         yield dict(case, custom=allc, ops=prefix + [f])
@@ -922,14 +1083,26 @@ def schedule(case):
     since = 0
     for i, op in enumerate(ops):
         ok, path, expect = tr.apply(op)
-        e = dict(ok=ok, path=path, expect=expect, props=bool(ok and op[0] == "props"), sweep=False, queries=[])
+        e = dict(ok=ok, path=path, expect=expect, props=bool(ok and op[0] == "props"), sweep=False, queries=[],
+                 direct=None)
         since += 1
         if e["props"]:
             res.append(e)
             continue
+        if ok and op[0] in ("foreign", "census"):
+            # answered by the model directly, run on a scratch font: no sweep, nothing pending
+            e["direct"] = op[0]
+            since -= 1
+            res.append(e)
+            continue
         if ok:
             pending.append((path, set(expect)))
+            pending.extend((p2, set(x2)) for p2, x2 in tr.extra)
         nxt = ops[i + 1] if i + 1 < len(ops) else None
+        j = i + 1
+        while nxt is not None and nxt[0] in ("foreign", "census"):
+            j += 1
+            nxt = ops[j] if j < len(ops) else None
         if tr.started and (nxt is None or since >= k or nxt[0] == "props" or tr.destructive(nxt)):
             extra = set()
             tr.sweep_touch(extra)
@@ -948,10 +1121,30 @@ def model_lines(case):
     for op, e in zip(case["ops"], schedule(case)):
         if e["props"]:
             lines.append([Atom("props"), Atom(op[1])])
+        elif e["direct"] == "foreign":
+            lines.append([Atom("foreign"), str(op[1]), Atom(op[2])])
+        elif e["direct"] == "census":
+            if census_live(case):
+                lines.append([Atom("census")] + [str(x) for x in op[1]])
+            else:
+                lines.append([Atom("multi")])
         else:
-            lines.append([Atom("multi")] + [[Atom(path), [Atom(r) for r in ROLES if r in expect]]
-                                            for path, expect in e["queries"]])
+            lines.append([Atom("multi")] + [query_sexp(path, expect) for path, expect in e["queries"]])
     return lines
+
+
+def census_live(case):
+    """the census of a directed history is compared only while the history is complete (a shrunk or truncated variant
+    executes fewer sites by construction: both sides then answer with the empty set)"""
+    return case.get("census_ops") == len(case["ops"])
+
+
+def query_sexp(path, expect):
+    roles = [Atom(r) for r in ROLES if r in expect]
+    if path.startswith("free:"):
+        _, cls, how = path.split(":")
+        return [Atom("free"), Atom(cls), Atom(how), roles]
+    return [Atom(path), roles]
 
 
 # ---------------------------------------------------------------------------------------
@@ -992,8 +1185,30 @@ def class_tag(obj):
     return [Atom("builtin"), t.__name__]
 
 
+PNG = b"\x89PNG\r\n\x1a\n" + b"\x00" * 16
+
+_TABLE = {}
+
+
+def site_table():
+    """the creation sites of the regenerated table with their source positions (same extractor run as Gen/ClassWiring.lean)"""
+    repo = os.environ.get("DEFCON_REPO", "/repo")
+    if repo not in _TABLE:
+        t = c15_census.SiteTable(repo)
+        lean_dir = os.path.join(os.path.dirname(os.path.dirname(os.path.dirname(os.path.abspath(__file__)))), "lean")
+        t.tied = t.error is None and t.tied_to(lean_dir)
+        _TABLE[repo] = t
+    return _TABLE[repo]
+
+
 class World(object):
     def __init__(self, case, tmpd):
+        c15_census.install(defaults())
+        self.census = c15_census.start()
+        self.handed = set()     # indices of census records whose object was handed out (swept or returned)
+        self.anomalies = []     # census anomalies of the current operation
+        self.cmark = 0
+        self.X = None           # scratch font with the same registered classes: objects handed in
         self.case = case
         self.tmpd = tmpd
         self.registered = dict((r, marker(r, i)) for r, i in case["custom"].items())
@@ -1014,10 +1229,67 @@ class World(object):
     def src(self):
         if self.S is None:
             from defcon import Font
-            self.S = Font()
+            # the source font has its OWN registered classes (other marker classes than the receiving font's)
+            kw = dict((KW[r], marker(r, int(i) + SRC_ID_OFFSET)) for r, i in (self.case.get("src_custom") or {}).items())
+            self.S = Font(**kw)
             build_font(self.S, self.case["src"])
             self.keep.append(self.S)
         return self.S
+
+    def scratch(self):
+        if self.X is None:
+            from defcon import Font
+            self.X = Font(**self.kw)
+            self.keep.append(self.X)
+        return self.X
+
+    # -- census ---------------------------------------------------------------------------
+    def census_step(self):
+        """the constructions since the last call: each one asked for from inside defcon must be a tabled site"""
+        tab = site_table()
+        recs = self.census.since(self.cmark)
+        self.cmark = self.census.mark()
+        for role, rel, line, fn, cn, col in recs:
+            if rel is None:
+                self.stats["census.external." + role] = self.stats.get("census.external." + role, 0) + 1
+                continue
+            if tab.error is not None:
+                continue
+            s = tab.lookup(rel, line, fn, col)
+            if s is None:
+                loc = "%s:%d in %s made %s" % (rel, line, fn, cn)
+                self.stats["census.untabled." + loc] = self.stats.get("census.untabled." + loc, 0) + 1
+                if loc not in self.anomalies:
+                    self.anomalies.append(loc)
+            else:
+                self.stats["census.site." + s["id"]] = self.stats.get("census.site." + s["id"], 0) + 1
+
+    def census_answer(self):
+        """every tabled site this history executed, with the role of what it made - `scratch` when none of the objects
+        made there was ever handed out (swept through the public API or returned by a call)"""
+        tab = site_table()
+        if tab.error is not None:
+            return [Atom("extractor-failed"), tab.error[:200]]
+        if not tab.tied:
+            return [Atom("table-not-the-one-of-Gen/ClassWiring.lean")]
+        never = set(self.case["ops"][-1][1]) if self.case["ops"][-1][0] == "census" else set()
+        res = {}
+        for i, (role, rel, line, fn, cn, col) in enumerate(self.census.records):
+            if rel is None:
+                continue
+            s = tab.lookup(rel, line, fn, col)
+            key = s["id"] if s is not None else "?%s:%d" % (rel, line)
+            if key in never:
+                continue
+            d = res.setdefault(key, dict(roles=set(), handed=False))
+            d["roles"].add(role)
+            if i in self.handed:
+                d["handed"] = True
+        items = []
+        for key in sorted(res):
+            for role in sorted(res[key]["roles"]):
+                items.append([key, Atom(role if res[key]["handed"] else "scratch")])
+        return [Atom("set")] + items
 
     def write_disk(self, content):
         from defcon import Font
@@ -1087,6 +1359,13 @@ class World(object):
         items = list(returned) + self.sweep()
         new = set()
         for role, obj, where in items:
+            ci = self.census.by_id.get(id(obj))
+            if ci is None:
+                loc = "unrecorded %s object at %s" % (role, where)
+                if loc not in self.anomalies:
+                    self.anomalies.append(loc)
+            else:
+                self.handed.add(ci)
             if not isinstance(obj, self.required[role]):
                 sig = "C15/%s/%s/%s" % (role, op[0], where)
                 if not any(v["signature"] == sig for v in self.viol):
@@ -1294,8 +1573,17 @@ class World(object):
                 P.groups["public.kern2.B"] = ["B"]
                 P.features.text = "# edited %d\n" % step
                 P.lib["com.verif.edit"] = step
+                P.images["img%d.png" % step] = PNG + bytes([step % 256])
+                P.data["verif/d%d.txt" % step] = b"edited %d" % step
             self.edit_disk(edit)
-            getattr(F, "reload" + part[0].upper() + part[1:])()
+            if part == "images":
+                F.reloadImages(["img%d.png" % step])
+                ret.append(("imageSet", F.images, "font.images"))
+            elif part == "data":
+                F.reloadData(["verif/d%d.txt" % step])
+                ret.append(("dataSet", F.data, "font.data"))
+            else:
+                getattr(F, "reload" + part[0].upper() + part[1:])()
         elif k == "touch":
             getattr(F, op[1])
         elif k == "deserialize":
@@ -1321,6 +1609,44 @@ class World(object):
             draw_contour(pc, C, ci)
             self.keep.append(pc)
             self.glyph(layer, gname)[ci].setDataFromSerialization(pc.getDataForSerialization())
+        elif k == "deserializeLayers":
+            data = self.src().layers.defaultLayer.getDataForSerialization()
+            F.layers.setDataFromSerialization(dict(layers=[(op[1], data, False)]))
+        elif k == "deserializeLayer":
+            data = self.src().layers.defaultLayer.getDataForSerialization()
+            F.layers[op[1]].setDataFromSerialization(data)
+        elif k == "deserializeSub":
+            g = self.glyph(op[1], op[2])
+            for o in list(g.anchors) + list(g.guidelines) + list(g.components) + [g.image, g.lib, F.layers[op[1]].lib, F.lib]:
+                o.setDataFromSerialization(o.getDataForSerialization())
+        elif k == "free":
+            ret.extend(self.free(step, op))
+        elif k == "stalePen":
+            _, layer, gname, C, kind, how = op
+            L = F.layers[layer]
+            g = L[gname]
+            n = len(g)
+            pen = g.getPointPen() if kind == "point" else g.getPen()
+            if how == "deleted":
+                del L[gname]
+            else:
+                L.newGlyph(gname)
+            assert g.layer is None
+            before = set(id(c) for c in g) | set(id(c) for c in g.components)
+            if kind == "point":
+                draw_contour(pen, C, n)
+            else:
+                draw_contour_segments(pen, C, n)
+            pen.addComponent("A", (1, 0, 0, 1, 5, 5))
+            # the glyph is no longer reachable from the font: what the pen made is reported by hand
+            for c in g:
+                if id(c) not in before:
+                    ret.append(("contour", c, "stalePen.glyph[]"))
+                    for pt in c:
+                        ret.append(("point", pt, "stalePen.contour[]"))
+            for c in g.components:
+                if id(c) not in before:
+                    ret.append(("component", c, "stalePen.glyph.components"))
         elif k == "noise":
             _, kind, layer, gname = op
             g = self.glyph(layer, gname)
@@ -1331,6 +1657,156 @@ class World(object):
         else:
             raise ValueError(op)
         return ret
+
+    def handed_classes(self):
+        r = self.required
+        return dict(contourClass=r["contour"], pointClass=r["point"], componentClass=r["component"], anchorClass=r["anchor"],
+                    guidelineClass=r["guideline"], libClass=r["lib"], imageClass=r["image"])
+
+    def free(self, step, op):
+        """free-standing objects: made by the font's factories and never inserted, or constructed by the caller (as an
+        object of defcon's own class / of the registered class) with the registered classes handed in"""
+        _, what, how, spec = op
+        d = defaults()
+        ret = []
+        layer = self.F.layers.defaultLayer
+        if what == "glyph":
+            if how == "factory":
+                g = layer.instantiateGlyphObject()
+                ret.append(("glyph", g, "free.instantiateGlyphObject()"))
+            else:
+                g = (d["glyph"] if how == "own" else self.required["glyph"])(**self.handed_classes())
+            self.keep.append(g)
+            build_glyph(g, spec)
+            for c in list(g):
+                self.drive_contour(c, step)
+            if len(g) and spec["contours"] and tcontour(spec["contours"][0])["plain"]:
+                draw_contour_segments(g.getPen(), spec["contours"][0], 5)
+            ret.append(("lib", g.lib, "free.glyph.lib"))
+            ret.append(("image", g.image, "free.glyph.image"))
+            for c in g:
+                ret.append(("contour", c, "free.glyph[]"))
+                for p in c:
+                    ret.append(("point", p, "free.contour[]"))
+            for c in g.components:
+                ret.append(("component", c, "free.glyph.components"))
+            for a in g.anchors:
+                ret.append(("anchor", a, "free.glyph.anchors"))
+            for a in g.guidelines:
+                ret.append(("guideline", a, "free.glyph.guidelines"))
+            return ret
+        if how == "factory":
+            g = layer.instantiateGlyphObject()
+            self.keep.append(g)
+            c = g.instantiateContour()
+            ret.append(("contour", c, "free.instantiateContour()"))
+        else:
+            c = (d["contour"] if how == "own" else self.required["contour"])(pointClass=self.required["point"])
+        self.keep.append(c)
+        draw_contour(c, spec, 1)
+        self.drive_contour(c, step)
+        p = c.pointClass((3 + step, 4), segmentType="line")
+        pts = list(c)
+        on = [i for i, q in enumerate(pts) if q.segmentType is not None]
+        c.insertPoint(on[0] + 1 if on else 0, p)
+        for p in c:
+            ret.append(("point", p, "free.contour[]"))
+        return ret
+
+    def drive_contour(self, c, step):
+        """the point-creating API of a contour that is (possibly) outside any glyph / layer / font"""
+        if not len(c):
+            return
+        c.reverse()
+        plain = not c.open and all(p.segmentType in (None, "line", "curve") for p in c)
+        if plain and len(c.segments) >= 2:
+            c.splitAndInsertPointAtSegmentAndT(step % len(c.segments), 0.5)
+        if plain and len(c.segments) >= 4:
+            c.removeSegment((step + 1) % len(c.segments), preserveCurve=True)
+        c.clockwise = not c.clockwise
+
+    def foreign(self, step, op):
+        """hand an object of defcon's class / of the registered class / of an unrelated subclass to an entry point of a
+        scratch font that has the same registered classes; answer: the very object is stored, or a new one of which class"""
+        _, entry, kind = op
+        role = ENTRIES[entry]
+        d = defaults()
+        cls = {"base": d[role], "registered": self.required[role], "unrelated": marker(role, UNRELATED_ID)}[kind]
+        X = self.scratch()
+        g = X.newGlyph("f%d" % step)
+        self.keep.append(g)
+        if role == "point":
+            obj = cls((1, 2), segmentType="line")
+        elif role == "anchor":
+            obj = cls(anchorDict=anchor_dict(1))
+        elif role == "guideline":
+            obj = cls(guidelineDict=guideline_dict(1))
+        elif role == "glyph":
+            obj = cls()
+            obj.name = "given%d" % step
+            build_glyph(obj, dict(contours=[dict(closed=True, segs=["line", "curve", "line"])], components=[], anchors=1,
+                                  guidelines=1, image=False, lib=True, unicodes=[]))
+        else:
+            obj = cls()
+        self.keep.append(obj)
+        owner, meth = entry.split(".")
+        if owner == "Contour":
+            c = g.instantiateContour()
+            g.appendContour(c)
+            self.keep.append(c)
+            if meth == "appendPoint":
+                c.appendPoint(obj)
+            else:
+                c.insertPoint(0, obj)
+            stored = list(c)[0]
+        elif owner == "Glyph":
+            if meth.startswith("_set_"):
+                setattr(g, meth[5:], [obj])
+            elif meth.startswith("append"):
+                getattr(g, meth)(obj)
+            else:
+                getattr(g, meth)(0, obj)
+            stored = {"contour": lambda: g[0], "component": lambda: g.components[0], "anchor": lambda: g.anchors[0],
+                      "guideline": lambda: g.guidelines[0]}[role]()
+        elif owner == "Layer":
+            stored = X.layers.defaultLayer.insertGlyph(obj)
+        elif owner == "Font" and role == "glyph":
+            stored = X.insertGlyph(obj)
+        else:
+            target = X if owner == "Font" else X.info
+            X.clearGuidelines()
+            if meth.startswith("_set_"):
+                X.guidelines = [obj]
+            elif meth.startswith("append"):
+                getattr(target, meth)(obj)
+            else:
+                getattr(target, meth)(0, obj)
+            stored = X.guidelines[0]
+        self.keep.append(stored)
+        self.stats["foreign.%s.%s" % (role, kind)] = self.stats.get("foreign.%s.%s" % (role, kind), 0) + 1
+        if role in self.registered:
+            self.created_custom = True
+        # direct oracle: for the roles the property demands conversion for, what the font now holds is of the registered class
+        if role in CONVERTED_ROLES:
+            held = [(role, stored, entry)]
+            if role == "glyph":
+                # "insertion from another font": everything inside the glyph the font now holds as well
+                held += [("lib", stored.lib, entry + ".lib"), ("image", stored.image, entry + ".image")]
+                held += [("contour", c, entry + "[]") for c in stored]
+                held += [("point", pt, entry + "[][]") for c in stored for pt in c]
+                held += [("component", c, entry + ".components") for c in stored.components]
+                held += [("anchor", c, entry + ".anchors") for c in stored.anchors]
+                held += [("guideline", c, entry + ".guidelines") for c in stored.guidelines]
+            for r2, o2, where in held:
+                if not isinstance(o2, self.required[r2]):
+                    sig = "C15/%s/foreign/%s" % (r2, where)
+                    if not any(v["signature"] == sig for v in self.viol):
+                        self.viol.append(dict(clause="C15/" + r2, signature=sig, step=step, op=op, where=where,
+                                              expected=self.required[r2].__name__, observed=type(o2).__name__,
+                                              customised=r2 in self.registered))
+        if stored is obj:
+            return [Atom("asIs")]
+        return [Atom("rebuilt"), class_tag(stored)]
 
     def props(self, which):
         layer = self.F.layers.defaultLayer
@@ -1369,32 +1845,49 @@ def run_impl(case):
                 for r in expect:
                     w.stats["hit.%s.%s" % (path, r)] = w.stats.get("hit.%s.%s" % (path, r), 0) + 1
                     if op[0] in ("removeSegment", "split", "appendPoint", "reverse", "copyData", "deserializeGlyph",
-                                 "deserializeContour", "reloadGlyphs", "reloadLayers", "reloadPart"):
+                                 "deserializeContour", "reloadGlyphs", "reloadLayers", "reloadPart", "deserializeLayers",
+                                 "deserializeLayer", "free", "stalePen"):
                         w.stats["made.%s.%s" % (op[0], r)] = w.stats.get("made.%s.%s" % (op[0], r), 0) + 1
+            w.anomalies = []
             try:
                 if e["props"]:
                     outs.append(w.props(op[1]))
-                    continue
-                if ok:
-                    pending_ret.extend(w.run(i, op))
-                if e["sweep"] and w.F is not None:
-                    w.tr.sweep_touch(set())
-                    outs.append(w.observe(i, op, pending_ret))
-                    pending_ret = []
-                    w.stats["sweeps"] = w.stats.get("sweeps", 0) + 1
+                elif e["direct"] == "foreign":
+                    outs.append(w.foreign(i, op))
+                elif e["direct"] == "census":
+                    w.census_step()
+                    outs.append(w.census_answer() if census_live(case) else [Atom("set")])
                 else:
-                    outs.append([Atom("set")])
+                    if ok:
+                        pending_ret.extend(w.run(i, op))
+                    if e["sweep"] and w.F is not None:
+                        w.tr.sweep_touch(set())
+                        outs.append(w.observe(i, op, pending_ret))
+                        pending_ret = []
+                        w.stats["sweeps"] = w.stats.get("sweeps", 0) + 1
+                    else:
+                        outs.append([Atom("set")])
             except Exception as ex:
                 w.stats["err." + type(ex).__name__] = w.stats.get("err." + type(ex).__name__, 0) + 1
                 outs.append([Atom("err"), Atom(type(ex).__name__), str(ex)[:120]])
+            # census: whatever this operation constructed from inside defcon was constructed at a tabled site, and
+            # whatever the sweep reached had been recorded; an anomaly breaks the tie and names the place
+            w.census_step()
+            if w.anomalies:
+                outs[-1] = [Atom("census-anomaly"), [str(a) for a in w.anomalies], outs[-1]]
         w.stats["custom.%02d" % len(case["custom"])] = 1
         w.stats["lazy" if case.get("lazy") else "eager"] = 1
         w.stats["sweep_every.%d" % int(case.get("sweep", 1))] = 1
         w.stats["ops"] = len(case["ops"])
+        tab = site_table()
+        for sid in tab.ids:
+            w.stats.setdefault("census.site." + sid, 0)
+        w.stats["src_custom.%s" % ("yes" if case.get("src_custom") else "no")] = 1
         nontrivial = bool(case["custom"]) and w.created_custom
         res = dict(out=outs, viol=w.viol, info=dict(nontrivial=nontrivial, stats=w.stats))
         # keep everything alive until here
         del w
         return res
     finally:
+        c15_census.stop()
         shutil.rmtree(tmpd, ignore_errors=True)
